@@ -42,7 +42,9 @@ class BuffersCheck:
             return obs
         g.__name__ = "buffer_primitives"
         g.functions = buffers_vc.FUNCTIONS
-        return [("<gen>", g)]
+        from . import types_vc
+
+        return [("<gen>", g)] + [t for t in types_vc.targets("C13")]
 
     def bounded(self, tier, seed, focus):
         return buffers_native.run(tier, seed)
